@@ -47,8 +47,13 @@ def gen_proof(rng, max_nodes=6, max_len=120, boundary=False):
         n = rng.choice([1, 255, rng.randint(200, 255)])
         return [rng.randbytes(rng.choice([1, 255, rng.randint(1, 255)])) for _ in range(n)]
     n = rng.randint(1, max_nodes)
-    return [rng.randbytes(rng.choice([1, 2, 32, 33, max_len, rng.randint(1, max_len)]))
-            for _ in range(n)]
+    nodes = [rng.randbytes(rng.choice([1, 2, 32, 33, max_len, rng.randint(1, max_len)]))
+             for _ in range(n)]
+    if rng.random() < 0.12:
+        # the same node more than once (next to each other or apart): a list is a list
+        for _ in range(rng.randint(1, 2)):
+            nodes.insert(rng.randrange(len(nodes) + 1), rng.choice(nodes))
+    return nodes
 
 
 def sign_auth_request(key_id, tx_raw, input_index, receipt, proof, segwit=None,
